@@ -709,6 +709,67 @@ func (c *Ctx) poolReturner(f *types.Func) *poolRet {
 	return r
 }
 
+// clearedBy: the per-call globals that repository function f resets to nil on every normal path through it
+// (an all-nil luaSetRawGlobals / luaSetEvalCmd(…, LNil) call that no path to an exit avoids, or a call of such a
+// helper).
+var clearedByMemo = map[*types.Func]map[string]bool{}
+
+func (c *Ctx) clearedBy(f *types.Func, depth int) map[string]bool {
+	if f == nil || depth > 2 {
+		return nil
+	}
+	if m, ok := clearedByMemo[f]; ok {
+		return m
+	}
+	out := map[string]bool{}
+	clearedByMemo[f] = out
+	fi := c.FuncOf(f)
+	if fi == nil || fi.Decl.Body == nil || isSetRawGlobals(f) {
+		return out
+	}
+	info := fi.Info()
+	fg := newFlowGraph(info, fi.Decl.Body)
+	for _, cl := range fg.Find(func(x ast.Node) bool { _, ok := x.(*ast.CallExpr); return ok }) {
+		call := cl.Node.(*ast.CallExpr)
+		g := callee(info, call)
+		var ks []string
+		if isSetRawGlobals(g) {
+			k2, allNil, ok := globalsLit(info, call)
+			if !ok || !allNil {
+				continue
+			}
+			ks = k2
+		} else {
+			for k := range c.clearedBy(g, depth+1) {
+				ks = append(ks, k)
+			}
+		}
+		if len(ks) == 0 {
+			continue
+		}
+		// no path from the entry to an exit avoids this call
+		skip, _ := fg.Reach(PathQuery{Target: func(l Loc) bool { return isReturn(l.Node) }, Avoid: func(l Loc) bool { return l.Block == cl.Block && l.Idx == cl.Idx }})
+		if !skip {
+			for _, b := range fg.G.Blocks {
+				if fg.Reachable(b) && len(b.Succs) == 0 && (len(b.Nodes) == 0 || !isReturn(b.Nodes[len(b.Nodes)-1])) {
+					if len(b.Nodes) > 0 && endsInNoReturn(info, b.Nodes[len(b.Nodes)-1]) {
+						continue
+					}
+					if ok, _ := reachBlockAvoiding(fg, b, func(t Loc) bool { return t.Block == cl.Block && t.Idx == cl.Idx }, func(*cfgBlock, int) bool { return false }); ok {
+						skip = true
+					}
+				}
+			}
+		}
+		if !skip {
+			for _, k := range ks {
+				out[k] = true
+			}
+		}
+	}
+	return out
+}
+
 // returnerClears: the call hands the state back through a function that resets all of keys first.
 func (c *Ctx) returnerClears(f *types.Func, keys []string) bool {
 	r := c.poolReturner(f)
@@ -756,17 +817,40 @@ func rulePerCallGlobals(c *Ctx) {
 		// (b) is a defer of such a call or of a literal containing such a call
 		clearsKeys := func(node ast.Node, keys []string) bool {
 			hit := false
+			union := map[string]bool{}
 			ast.Inspect(node, func(x ast.Node) bool {
 				call, ok := x.(*ast.CallExpr)
-				if !ok || !isSetRawGlobals(callee(info, call)) {
+				if !ok {
+					return true
+				}
+				f := callee(info, call)
+				if !isSetRawGlobals(f) {
+					// a clean-up helper: the globals it resets on every path
+					for k := range c.clearedBy(f, 0) {
+						union[k] = true
+					}
 					return true
 				}
 				ks, allNil, ok := globalsLit(info, call)
 				if ok && allNil && len(diff(setOf(keys), setOf(ks))) == 0 {
 					hit = true
 				}
+				if ok && allNil {
+					for _, k := range ks {
+						union[k] = true
+					}
+				}
 				return true
 			})
+			if !hit && len(union) > 0 {
+				all := true
+				for _, k := range keys {
+					if !union[k] {
+						all = false
+					}
+				}
+				hit = all
+			}
 			return hit
 		}
 		// owner hand-off: the state is stored into a composite literal of a type whose Close clears+puts
